@@ -72,6 +72,10 @@ def quoteBytes (s : Bytes) : Bytes := s.flatMap quoteByte
 def encodeUrlencoded (fields : List (Str × Bytes)) : Bytes :=
   C06.joinWith [38] (fields.map (fun (n, v) => quoteBytes n ++ [61] ++ quoteBytes v))
 
+/-- the standard (WHATWG / HTML) form encoding of arbitrary text names: the name's UTF-8 bytes, percent-encoded -/
+def encodeUrlencodedUtf8 (fields : List (Str × Bytes)) : Bytes :=
+  encodeUrlencoded (fields.map (fun (n, v) => (utf8Enc n, v)))
+
 def expectedFields (fields : List (Str × Bytes)) : List (Str × List Bytes) :=
   fields.foldl (fun d (n, v) => dappend n v d) []
 
